@@ -47,6 +47,9 @@ def terminal_polygon_points(term, film, xi):
     lo, hi = term["span"]
     depth = term.get("depth", 0.3)
     side = term["side"]
+    if term.get("inside"):
+        # C19: a terminal polygon strictly inside the film touches no boundary edge
+        return box(0.4 * hw * xi, 0.4 * hh * xi, points=8, center=(0.05 * hw * xi, 0.07 * hh * xi))
     if side in ("left", "right"):
         x = -hw if side == "left" else hw
         y0, y1 = -hh + lo * 2 * hh, -hh + hi * 2 * hh
@@ -87,7 +90,7 @@ def build_device(spec, mesh_from=None):
     ]
     probes = spec.get("probes")
     if probes is not None:
-        probes = [(p[0] * xi, p[1] * xi) for p in probes]
+        probes = [tuple(c * xi for c in p) for p in probes]
     device = tdgl.Device(
         spec.get("name", "dev"),
         layer=layer,
@@ -313,6 +316,10 @@ def build_tree(node, ctx, shared=None):
             )
         elif k == "scalar2d":
             obj = tdgl.Parameter(scalar2d, a=node["a"], b=node["b"])
+        elif k == "column2d":
+            obj = tdgl.Parameter(column2d, a=node["a"], b=node["b"])
+        elif k == "short3d":
+            obj = tdgl.Parameter(short3d, a=node["a"], b=node["b"])
         else:
             raise ValueError(k)
     else:
@@ -325,8 +332,18 @@ def build_tree(node, ctx, shared=None):
     return obj
 
 
-def scalar2d(x, y, a=1.0, b=0.0):
+def scalar2d(x, y, z, a=1.0, b=0.0):
     return a + b * np.cos(np.atleast_1d(x) + 2 * np.atleast_1d(y))
+
+
+def column2d(x, y, z, a=1.0, b=0.0):
+    return (a + b * np.cos(np.atleast_1d(x) + 2 * np.atleast_1d(y)))[:, None] * np.ones((1, 1))
+
+
+def short3d(x, y, z, a=1.0, b=0.0):
+    """A vector potential evaluated on the wrong number of points."""
+    n = max(2, len(np.atleast_1d(x)) // 2)
+    return a * np.ones((n, 3))
 
 
 def eval_tree(node, ctx, x, y, z, t):
@@ -354,7 +371,7 @@ def eval_tree(node, ctx, x, y, z, t):
         if k == "gauge":
             return gauge_grad(x, y, z, c=tuple(node.get("c", (0, 0))), q=tuple(node.get("q", (0, 0, 0))), inv_scale=1.0 / ctx["A_scale"], xi=ctx["xi"])
         if k == "scalar2d":
-            v = scalar2d(x, y, a=node["a"], b=node["b"])
+            v = scalar2d(x, y, z, a=node["a"], b=node["b"])
             return v
         raise ValueError(k)
     ops = {"+": operator.add, "-": operator.sub, "*": operator.mul, "/": operator.truediv, "**": operator.pow}
